@@ -172,7 +172,24 @@ func csvEncodeFnBody(fn string, value rel.Value, config encodeConfig) (rel.Value
 	writer := csv.NewWriter(&buffer)
 	writer.Comma = config.comma
 	writer.UseCRLF = config.crlf
-	if err := writer.WriteAll(records); err != nil {
+	for _, record := range records {
+		if len(record) == 1 && record[0] == "" {
+			// csv.Writer writes a lone empty field as a blank line, which CSV readers
+			// (csv.decode included) skip. Quote it so that the record survives; writing
+			// a record without fields only terminates the line.
+			writer.Flush()
+			if err := writer.Error(); err != nil {
+				return nil, err
+			}
+			buffer.WriteString(`""`)
+			record = nil
+		}
+		if err := writer.Write(record); err != nil {
+			return nil, err
+		}
+	}
+	writer.Flush()
+	if err := writer.Error(); err != nil {
 		return nil, err
 	}
 
